@@ -341,7 +341,7 @@ __strf_reset_long_mon(void)
 static inline void
 __strf_reset_abbr_mon(void)
 {
-	if (dut_abbr_mon != __abbr_mon) {
+	if (duf_abbr_mon != __abbr_mon) {
 		free(deconst(duf_abbr_mon));
 	}
 	duf_abbr_mon = __abbr_mon;
